@@ -48,6 +48,13 @@ fn path_refs(p: &[String]) -> Vec<&str> {
     p.iter().map(|s| s.as_str()).collect()
 }
 
+thread_local! {
+    static DL_STARTS: std::cell::Cell<u64> = const { std::cell::Cell::new(0) };
+    /// scenarios that count allocations start their downloads without a crossing request (its cache
+    /// entry would add bookkeeping allocations of buffer-like size to the count)
+    static PLAIN_STARTS: std::cell::Cell<bool> = const { std::cell::Cell::new(false) };
+}
+
 /// start a download: first request with early negotiation, reply must be fragmented
 fn dl_start(server: &mut Server, ep: u32, path: Vec<String>, body: Vec<u8>, szx: u8, mid: &mut u16) -> Result<Dl, String> {
     let mut r = ReqSpec::new(1, &path_refs(&path));
@@ -56,7 +63,36 @@ fn dl_start(server: &mut Server, ep: u32, path: Vec<String>, body: Vec<u8>, szx:
     r.block2 = Some((0, false, szx));
     let b = body.clone();
     let mut app = move |_q: &CoapRequest<CEp>| AppReply::content(b.clone());
-    let ex = server.exchange(&r.bytes(), ep, &mut app);
+    // every other download starts while another client's request is being taken in: that request
+    // arrives between this one's intercept_request and intercept_response, carries the SAME message
+    // id (ids are per client), another Block2 option, and is completed first
+    let overlapped = PLAIN_STARTS.with(|p| !p.get())
+        && DL_STARTS.with(|c| {
+            let v = c.get();
+            c.set(v + 1);
+            v % 2 == 0
+        });
+    let ex = if overlapped {
+        let mut o = ReqSpec::new(1, &["elsewhere"]);
+        o.mid = r.mid;
+        o.token = vec![0x77];
+        o.block2 = Some((2, false, 0));
+        let mut other_app = |_q: &CoapRequest<CEp>| AppReply::content(vec![0x6f; 300]);
+        let mine = server.take_in(&r.bytes(), ep);
+        let theirs = server.take_in(&o.bytes(), ep + 5000);
+        // half of the time the other request is answered first, otherwise it is still pending
+        // when this download's first reply goes out
+        if DL_STARTS.with(|c| c.get()) % 4 == 1 {
+            let _ = server.answer(theirs, &mut other_app);
+            server.answer(mine, &mut app)
+        } else {
+            let ex = server.answer(mine, &mut app);
+            let _ = server.answer(theirs, &mut other_app);
+            ex
+        }
+    } else {
+        server.exchange(&r.bytes(), ep, &mut app)
+    };
     let blk = ex.block_of(coap_lite::CoapOption::Block2);
     match blk {
         Some(bv) if bv.more && ex.app_called => Ok(Dl { ep, path, body, szx, next: 1 }),
@@ -439,11 +475,20 @@ fn scenario_long_lived(rep: &mut Report, r: &mut Rng, clock: &Clock, d: Duration
     rep.distinct(mix(&[5, d.as_millis() as u64, generations as u64, per_generation as u64]));
 }
 
+struct RestorePlain;
+impl Drop for RestorePlain {
+    fn drop(&mut self) {
+        PLAIN_STARTS.with(|p| p.set(false));
+    }
+}
+
 fn scenario_reclaim(rep: &mut Report, r: &mut Rng, clock: &Clock, d: Duration, n: u32, traffic: bool) {
     rep.eval();
     let witness = format!("reclamation: expiry {:?}, {} abandoned transfers, other keys busy meanwhile: {}, virtual_time={}", d, n, traffic, clock.virt);
     set_case_str(&witness);
     let mut mid = 0u16;
+    PLAIN_STARTS.with(|p| p.set(true));
+    let _restore = RestorePlain;
     let base_eps = live_endpoints();
     let base_big = alloc_count::big_live();
     let mut server = Server::new(1200, d);
